@@ -701,6 +701,11 @@ impl Session {
             payload.len()
         );
 
+        if !self.is_established() {
+            warn!("RX data integrity failure: data segment before the BTP handshake");
+            Err(ErrorCode::InvalidData)?;
+        }
+
         self.send_window.check_incoming(&hdr)?;
         self.recv_window.accept_incoming(&hdr, payload, self.mtu)?;
         self.send_window.accept_incoming(&hdr);
